@@ -290,10 +290,10 @@ Proof.
   destruct H1 as (U1 & U2 & news & U4 & HF).
   assert (G1 : forall x, snd_una (match (map (fun h => mkSeg h []) (oneshot t) ++ map t_seg (filter t_needs (retx t1))) with
                        | [] => set_retx t1 x | _ :: _ => set_rto (set_retx t1 x) RTO end) = snd_una t1)
-    by (intros; destruct (_ ++ _); reflexivity).
+    by (intros; destruct (map _ (oneshot t) ++ _); reflexivity).
   assert (G2 : forall x, snd_wnd (match (map (fun h => mkSeg h []) (oneshot t) ++ map t_seg (filter t_needs (retx t1))) with
                        | [] => set_retx t1 x | _ :: _ => set_rto (set_retx t1 x) RTO end) = snd_wnd t1)
-    by (intros; destruct (_ ++ _); reflexivity).
+    by (intros; destruct (map _ (oneshot t) ++ _); reflexivity).
   rewrite G1, G2, U1, U2. repeat split.
   exists (map t_seg news). split.
   - rewrite U4, filter_app, map_app. rewrite (filter_all_needs news).
@@ -323,4 +323,717 @@ Proof.
     unfold old_behind in Hold. rewrite Forall_forall in Hold.
     rewrite (Hold tx Hin Htext) in Hgeq. discriminate Hgeq.
   - rewrite Forall_forall in HF. apply HF; assumption.
+Qed.
+
+(* ------------------------------------------------------------------ *)
+(* old_behind is an invariant: InvR.  It says where the retransmission queue
+   lies relative to SND.UNA / SND.NXT and survives arbitrary segments.       *)
+Definition pre_fin (s : state) : bool :=
+  match s with SynSent | SynReceived | Established | CloseWait => true | _ => false end.
+Definition flight (t : tcb) : Z := wsub (snd_nxt t) (snd_una t).
+(* our FIN not yet in the sequence space *)
+Definition fin_unsent (t : tcb) : bool := pre_fin (st t) || fin_pending t.
+Definition data_bound (t : tcb) : Z := if fin_unsent t then 65535 else 65536.
+
+(* a queued segment ends in (SND.UNA, SND.NXT]; while text is queued the flight
+   is at most the largest window (+1 for our FIN) *)
+Definition tx_ok (t : tcb) (tx : transmit) : Prop :=
+  let s := t_seg tx in
+  0 < wsub (wadd (h_seq (s_hdr s)) (seg_len s)) (snd_una t) <= flight t /\
+  (s_text s <> [] -> flight t <= data_bound t).
+
+Record RCore (t : tcb) : Prop := mkRCore {
+  r_inv : Inv t;
+  r_retx : Forall (tx_ok t) (retx t);
+  (* an ACK exactly 2^31 ahead of SND.UNA = SND.NXT is taken as valid
+     (ack_antipode below), hence 2^31 and not 65536 *)
+  r_flight : flight t <= H31 + (if fin_unsent t then 0 else 1);
+  r_finp : fin_pending t = true -> pre_fin (st t) = false }.
+Definition RSyn (t : tcb) : Prop :=
+  st t = SynSent -> snd_una t = snd_iss t /\ 0 < flight t <= 65535.
+Definition InvR (t : tcb) : Prop := RCore t /\ RSyn t.
+
+(* RCore looks only at these *)
+Lemma RCore_frame t t' : RCore t -> Inv t' ->
+  retx t' = retx t -> snd_una t' = snd_una t -> snd_nxt t' = snd_nxt t ->
+  pre_fin (st t') = pre_fin (st t) -> fin_pending t' = fin_pending t -> RCore t'.
+Proof.
+  intros [H1 H2 H3 H4] HI Er Eu En Es Ef.
+  assert (Efl : flight t' = flight t) by (unfold flight; rewrite Eu, En; reflexivity).
+  assert (Efu : fin_unsent t' = fin_unsent t) by (unfold fin_unsent; rewrite Es, Ef; reflexivity).
+  constructor; [assumption| | |].
+  - rewrite Er. eapply Forall_impl; [|exact H2]. intros tx. unfold tx_ok, data_bound.
+    rewrite Efl, Efu, Eu. auto.
+  - rewrite Efl, Efu. assumption.
+  - rewrite Ef, Es. assumption.
+Qed.
+
+(* ---- arithmetic of an accepted acknowledgment ---- *)
+Lemma ack_accept una nxt ack : u32 una -> u32 nxt -> u32 ack ->
+  mod_leq ack una = false -> mod_gt ack nxt = false ->
+  (0 < wsub ack una <= wsub nxt una /\ wsub nxt ack = wsub nxt una - wsub ack una) \/
+  (wsub nxt una = 0 /\ wsub ack una = H31 /\ wsub nxt ack = H31).
+Proof. u32_unfold. intros Hu Hn Ha H1 H2. lia. Qed.
+
+Lemma ack_entry una nxt ack e : u32 una -> u32 nxt -> u32 ack -> u32 e ->
+  0 < wsub ack una <= wsub nxt una -> wsub ack una <= H31 ->
+  0 < wsub e una <= wsub nxt una -> mod_lt ack e = true ->
+  0 < wsub e ack <= wsub nxt una - wsub ack una.
+Proof. u32_unfold. intros Hu Hn Ha He H1 H1' H2 H3. lia. Qed.
+
+Lemma ack_accept_le una ack : mod_leq ack una = false -> wsub ack una <= H31.
+Proof. u32_unfold. intros H. lia. Qed.
+
+(* SND.UNA := ack, acknowledged segments leave the queue *)
+Lemma advance_una t ack : RCore t -> u32 ack ->
+  ((0 < wsub ack (snd_una t) <= flight t /\ wsub ack (snd_una t) <= H31 /\
+    wsub (snd_nxt t) ack = flight t - wsub ack (snd_una t)) \/
+   (flight t = 0 /\ wsub (snd_nxt t) ack = H31)) ->
+  RCore (remove_acked (set_snd_una t ack) ack).
+Proof.
+  intros [H1 H2 H3 H4] Ha Hcase.
+  assert (HI : Inv (remove_acked (set_snd_una t ack) ack))
+    by (apply remove_acked_inv, Inv_set_snd_una; assumption).
+  constructor; [assumption| | |]; unfold remove_acked, flight, fin_unsent, data_bound in *; tsimpl.
+  - destruct Hcase as [(Ha1 & Ha2 & Ha3)|(Hd & _)].
+    + pose proof (i_retx _ H1) as Hwf. clear HI.
+      revert Hwf H2. generalize (retx t) as l.
+      induction l as [|tx l IH]; intros Hwf H2; cbn [filter]; [constructor|].
+      inversion Hwf; subst. inversion H2 as [|? ? Htx H2']; subst.
+      destruct (mod_lt ack _) eqn:Ek; [|apply IH; assumption].
+      constructor; [|apply IH; assumption].
+      destruct Htx as [Hb1 Hb2]. unfold tx_ok, flight, data_bound, fin_unsent in *. tsimpl.
+      rewrite Ha3. split.
+      * apply ack_entry; try assumption; try apply wadd_u32; try apply H1.
+      * intros Ht. specialize (Hb2 Ht). lia.
+    + (* nothing can be queued when the flight is empty *)
+      destruct H2 as [|tx l Htx _]; [constructor|].
+      destruct Htx as [Hb1 _]. unfold flight in *. lia.
+  - destruct Hcase as [(Ha1 & Ha2 & Ha3)|(Hd & Ha3)]; rewrite Ha3.
+    + destruct (pre_fin (st t) || fin_pending t); lia.
+    + destruct (pre_fin (st t) || fin_pending t); lia.
+  - assumption.
+Qed.
+
+Lemma enqueue_plain_RCore t h : RCore t -> wf_hdr h ->
+  c_syn (h_ctl h) = false -> c_fin (h_ctl h) = false -> RCore (enqueue t h).
+Proof.
+  intros HR Hh Hs Hf. eapply RCore_frame; [exact HR|apply enqueue_inv; [apply HR|assumption]|..];
+    rewrite enqueue_plain by assumption; reflexivity.
+Qed.
+
+Lemma RCore_set_snd_window t w a b : RCore t -> u16 w -> u32 a -> u32 b -> RCore (set_snd_window t w a b).
+Proof.
+  intros HR ? ? ?. eapply RCore_frame; [exact HR|apply Inv_set_snd_window; try assumption; apply HR|..]; reflexivity.
+Qed.
+
+Lemma ack_est_RCore t h : RCore t -> wf_hdr h -> RCore (fst (ack_est t h)).
+Proof.
+  intros HR Hh. pose proof Hh as (Hsp & Hdp & Hseq & Hack & Hwnd & Hurg).
+  pose proof (r_inv _ HR) as HI.
+  unfold ack_est. destruct (mod_leq _ _) eqn:E1; [exact HR|].
+  destruct (mod_gt _ _) eqn:E2; cbn [fst].
+  - apply enqueue_plain_RCore; [assumption|apply ack_hdr_wf; assumption|reflexivity|reflexivity].
+  - assert (H1 : RCore (remove_acked (set_snd_una t (h_ack h)) (h_ack h))).
+    { apply advance_una; [assumption|assumption|].
+      destruct (ack_accept _ _ _ (i_una _ HI) (i_nxt _ HI) Hack E1 E2) as [(A1 & A2)|(A1 & A2 & A3)].
+      - left. unfold flight. repeat split; try lia. apply ack_accept_le; assumption.
+      - right. unfold flight. auto. }
+    destruct (_ || _); [apply RCore_set_snd_window|]; assumption.
+Qed.
+
+(* ---- stage 2, away from SYN-SENT ---- *)
+Lemma pre_fin_ack_edge a b : ack_edge a b = true -> pre_fin b = pre_fin a.
+Proof. destruct a, b; cbn; intros H; try reflexivity; discriminate H. Qed.
+Lemma pre_fin_fin_edge a b : fin_edge a b = true -> pre_fin b = pre_fin a.
+Proof. destruct a, b; cbn; intros H; try reflexivity; discriminate H. Qed.
+
+Lemma RCore_set_st t v : RCore t -> pre_fin v = pre_fin (st t) -> RCore (set_st t v).
+Proof. intros HR E. eapply RCore_frame; [exact HR|apply Inv_set_st, HR|..]; try reflexivity. exact E. Qed.
+Lemma RCore_set_time_wait t v : RCore t -> tw_ok v -> RCore (set_time_wait t v).
+Proof. intros HR E. eapply RCore_frame; [exact HR|apply Inv_set_time_wait; [apply HR|exact E]|..]; reflexivity. Qed.
+Lemma RCore_set_rto t v : RCore t -> 0 <= v <= RTO -> RCore (set_rto t v).
+Proof. intros HR E. eapply RCore_frame; [exact HR|apply Inv_set_rto; [apply HR|exact E]|..]; reflexivity. Qed.
+Lemma RCore_set_rcv_nxt t v : RCore t -> u32 v -> RCore (set_rcv_nxt t v).
+Proof. intros HR E. eapply RCore_frame; [exact HR|apply Inv_set_rcv_nxt; [apply HR|exact E]|..]; reflexivity. Qed.
+Lemma RCore_set_rcv_irs t v : RCore t -> u32 v -> RCore (set_rcv_irs t v).
+Proof. intros HR E. eapply RCore_frame; [exact HR|apply Inv_set_rcv_irs; [apply HR|exact E]|..]; reflexivity. Qed.
+Lemma RCore_set_in_segs t v : RCore t -> Forall wf_seg v -> RCore (set_in_segs t v).
+Proof. intros HR E. eapply RCore_frame; [exact HR|apply Inv_set_in_segs; [apply HR|exact E]|..]; reflexivity. Qed.
+
+Lemma ps_ack_RCore t h : RCore t -> wf_hdr h -> st t <> SynSent -> RCore (fst (ps_ack t h)).
+Proof.
+  intros HR Hh Hn. pose proof Hh as (Hsp & Hdp & Hseq & Hack & Hwnd & Hurg).
+  pose proof (r_inv _ HR) as HI.
+  unfold ps_ack. destruct (negb _); [exact HR|].
+  destruct (st t) eqn:Est; [congruence|..];
+    try (match goal with |- context [ack_est t h] => idtac end;
+         pose proof (ack_est_RCore t h HR Hh) as H2;
+         pose proof (ack_est_st t h) as E2;
+         destruct (ack_est t h) as [t2 r]; cbn [fst] in H2, E2;
+         repeat break_if; destruct r; cbn [fst];
+         repeat first [assumption | apply RCore_set_time_wait | apply RCore_set_st | apply tw_ok_msl2
+                      | rewrite E2, Est; reflexivity]).
+  - destruct (mod_bounded _ _ _ _ _); cbn [fst].
+    + match goal with |- context [ack_est ?tt h] =>
+        assert (H2 : RCore (fst (ack_est tt h)))
+          by (apply ack_est_RCore; [apply RCore_set_snd_window; try assumption;
+                                    apply RCore_set_st; [assumption|rewrite Est; reflexivity]|assumption]);
+        destruct (ack_est tt h) as [t2 r] end.
+      cbn [fst] in H2. destruct r; exact H2.
+    + apply enqueue_plain_RCore; [assumption|apply rst_hdr_wf; assumption|reflexivity|reflexivity].
+  - cbn [fst]. apply RCore_set_time_wait; [|apply tw_ok_msl2].
+    apply enqueue_plain_RCore; [assumption| |reflexivity|reflexivity].
+    apply hb_wnd_wf; [|apply rcv_wnd_u16; assumption].
+    apply hb_ack_wf; [|apply wadd_u32]. apply hb_wf; [assumption|apply HI].
+Qed.
+
+(* ---- stages 4, 6, 7 away from SYN-SENT ---- *)
+Lemma ps_syn_RCore t h : RCore t -> wf_hdr h -> st t <> SynSent -> RCore (fst (ps_syn t h)).
+Proof.
+  intros HR Hh Hn. unfold ps_syn. destruct (negb _); [exact HR|].
+  assert (Ho : RCore (enqueue t (ack_hdr t)))
+    by (apply enqueue_plain_RCore; [assumption|apply ack_hdr_wf, HR|reflexivity|reflexivity]).
+  destruct (st t); cbn [fst]; try exact Ho. congruence.
+Qed.
+
+Lemma ps_text_RCore t h text t' : RCore t -> ps_text t h text = Ok t' -> RCore t'.
+Proof.
+  intros HR H. pose proof (ps_text_inv _ _ _ _ (r_inv _ HR) H) as HI.
+  pose proof (ps_text_st _ _ _ _ H) as Es.
+  pose proof (ps_text_same_cfg _ _ _ _ H) as (_ & _ & _ & _ & _ & _ & _ & Ef & En).
+  eapply RCore_frame; [exact HR|exact HI| | |exact En|rewrite Es; reflexivity|exact Ef];
+    revert H; unfold ps_text; repeat break_if; intros H; inversion H; subst; try reflexivity;
+    rewrite enqueue_plain by reflexivity; reflexivity.
+Qed.
+
+Lemma ps_fin_RCore t h n : RCore t -> RCore (ps_fin t h n).
+Proof.
+  intros HR. unfold ps_fin. destruct (negb _); [exact HR|].
+  match goal with |- context [match st ?x with _ => _ end] => set (t1 := x) end.
+  assert (H1 : RCore t1 /\ st t1 = st t).
+  { subst t1. repeat break_if; try (split; [exact HR|reflexivity]).
+    assert (H2 : RCore (set_rcv_nxt t (wadd (wadd (h_seq h) n) 1)))
+      by (apply RCore_set_rcv_nxt; [assumption|apply wadd_u32]).
+    split; [|rewrite enqueue_st; reflexivity].
+    apply enqueue_plain_RCore; [exact H2|apply ack_hdr_wf, H2|reflexivity|reflexivity]. }
+  destruct H1 as [H1 E1].
+  destruct (st t1) eqn:Et1; try destruct (is_fin_acked t1);
+    repeat first [assumption | apply RCore_set_rto | apply RCore_set_time_wait | apply RCore_set_st
+                 | apply tw_ok_msl2 | apply rto_ok_RTO | rewrite Et1; reflexivity].
+Qed.
+
+(* ---- SYN-SENT ---- *)
+Lemma synsent_ack_arith una nxt ack : u32 una -> u32 nxt -> u32 ack ->
+  0 < wsub nxt una <= 65535 ->
+  mod_bounded una CLt ack CLeq nxt = true ->
+  0 < wsub ack una <= wsub nxt una /\ wsub ack una <= H31 /\
+  wsub nxt ack = wsub nxt una - wsub ack una /\ mod_gt ack una = true.
+Proof.
+  intros Hu Hn Ha Hd. rewrite mod_bounded_arc by (try assumption; unfold H31; lia).
+  u32_unfold. intros H. lia.
+Qed.
+
+Lemma tx_ok_synack t h : RCore t -> st t = SynSent -> snd_una t = snd_iss t -> 0 < flight t ->
+  c_syn (h_ctl h) = true -> c_fin (h_ctl h) = false -> h_seq h = snd_iss t -> wf_hdr h ->
+  RCore (enqueue (set_st t SynReceived) h).
+Proof.
+  intros [H1 H2 H3 H4] Est Eu Hd Hs Hf Hseq Hh.
+  assert (HI : Inv (enqueue (set_st t SynReceived) h)) by (apply enqueue_inv; [apply Inv_set_st|]; assumption).
+  unfold enqueue in *. rewrite Hs in *. cbn [orb] in *.
+  constructor; [assumption| | |]; unfold flight, fin_unsent, data_bound in *; tsimpl.
+  - apply Forall_app. split.
+    + eapply Forall_impl; [|exact H2]. intros tx. unfold tx_ok, flight, data_bound, fin_unsent. tsimpl.
+      rewrite Est. cbn [pre_fin]. auto.
+    + constructor; [|constructor]. unfold tx_ok, flight, data_bound, fin_unsent, seg_len. tsimpl.
+      rewrite Hs, Hf, Hseq, <- Eu. cbn [b2z]. unfold zlen. cbn [length]. split.
+      * pose proof (i_una _ H1). revert Hd. u32_unfold. intros Hd. lia.
+      * intros C. exfalso. apply C. reflexivity.
+  - rewrite Est in H3. exact H3.
+  - intros Hp. specialize (H4 Hp). rewrite Est in H4. discriminate H4.
+Qed.
+
+Lemma process_segment_synsent_InvR t s t' r : InvR t -> wf_seg s -> st t = SynSent ->
+  process_segment t s = Ok (t', r) -> should_delete r = false -> InvR t'.
+Proof.
+  intros [HR HS] [Hh Hl] Est H Hd. pose proof Hh as (Hsp & Hdp & Hseq & Hack & Hwnd & Hurg).
+  pose proof (r_inv _ HR) as HI. destruct (HS Est) as [Eu Hfl].
+  assert (Hreply : forall hh, wf_hdr hh -> c_syn (h_ctl hh) = false -> c_fin (h_ctl hh) = false ->
+                   InvR (enqueue t hh)).
+  { intros hh W A B. split; [apply enqueue_plain_RCore; assumption|].
+    rewrite enqueue_plain by assumption. exact HS. }
+  revert H. unfold process_segment. rewrite Est.
+  (* stage 2 *)
+  unfold ps_ack. rewrite Est.
+  assert (Hrest : forall t2, RCore t2 -> st t2 = SynSent -> snd_iss t2 = snd_iss t ->
+            ((snd_una t2 = snd_iss t /\ 0 < flight t2 <= 65535) \/
+             (c_syn (h_ctl (s_hdr s)) = true /\ mod_gt (snd_una t2) (snd_iss t) = true)) ->
+            (c_syn (h_ctl (s_hdr s)) = false -> InvR t2) ->
+            match ps_rst t2 (s_hdr s) with
+            | Some r => Ok (t2, r)
+            | None => let '(t4, r4) := ps_syn t2 (s_hdr s) in
+              match r4 with
+              | Some r => Ok (t4, r)
+              | None => if state_eqb (st t4) SynSent then Ok (t4, PDiscard) else
+                match ps_text t4 (s_hdr s) (s_text s) with
+                | Ok t6 => Ok (ps_fin t6 (s_hdr s) (zlen (s_text s)), PSuccess)
+                | Err e => Err e | Panic p => Panic p | OutOfFuel => OutOfFuel
+                end
+              end
+            end = Ok (t', r) -> InvR t').
+  { intros t2 HR2 E2 Ei Hmid Hnosyn.
+    destruct (ps_rst t2 (s_hdr s)) as [r3|] eqn:Er.
+    { intros H; inversion H; subst. apply ps_rst_some in Er. destruct Er as [_ Er]. congruence. }
+    destruct (c_syn (h_ctl (s_hdr s))) eqn:Esyn.
+    2:{ rewrite (ps_syn_nosyn _ _ Esyn), E2. cbn [state_eqb].
+        intros H; inversion H; subst. apply Hnosyn. reflexivity. }
+    unfold ps_syn. rewrite Esyn, E2. cbn [negb]. cbv zeta.
+    set (t1 := set_snd_window _ _ _ _).
+    assert (HR1 : RCore t1).
+    { subst t1. apply RCore_set_snd_window; try assumption.
+      apply RCore_set_rcv_nxt; [|apply wadd_u32]. apply RCore_set_rcv_irs; assumption. }
+    assert (Eu1 : snd_una t1 = snd_una t2) by reflexivity.
+    assert (Ei1 : snd_iss t1 = snd_iss t2) by reflexivity.
+    rewrite Eu1, Ei1, Ei.
+    destruct (mod_gt (snd_una t2) (snd_iss t)) eqn:Eg.
+    - (* ESTABLISHED, then text and FIN *)
+      assert (HR4 : RCore (enqueue (set_st t1 Established) (ack_hdr (set_st t1 Established)))).
+      { apply enqueue_plain_RCore; [apply RCore_set_st; [assumption|subst t1; tsimpl; rewrite E2; reflexivity]
+                                   | |reflexivity|reflexivity].
+        apply ack_hdr_wf, Inv_set_st, HR1. }
+      rewrite enqueue_st. tsimpl. cbn [state_eqb].
+      destruct (ps_text _ (s_hdr s) (s_text s)) as [t6| | |] eqn:Et; try discriminate.
+      intros H; inversion H; subst.
+      assert (HR6 : RCore t6) by (eapply ps_text_RCore; eassumption).
+      assert (E6 : st t6 = Established).
+      { rewrite (ps_text_st _ _ _ _ Et), enqueue_st. reflexivity. }
+      split; [apply ps_fin_RCore; assumption|].
+      intros C. pose proof (ps_fin_st t6 (s_hdr s) (zlen (s_text s))) as Ee.
+      rewrite E6, C in Ee. discriminate Ee.
+    - (* SYN-RECEIVED: our SYN goes out again, with an ACK *)
+      destruct Hmid as [[Eu2 Hd2]|[_ Hc]]; [|congruence].
+      match goal with |- Ok (enqueue _ ?hh, _) = _ -> _ => assert (Hwf : wf_hdr hh) end.
+      { assert (H2 : Inv (set_st t1 SynReceived)) by (apply Inv_set_st, HR1).
+        apply hb_wnd_wf; [|apply rcv_wnd_u16; assumption].
+        apply hb_ack_wf; [|apply H2]. apply hb_flag_wf. apply hb_wf; [assumption|apply H2]. }
+      intros H; inversion H; subst.
+      split; [|intros C; rewrite enqueue_st in C; discriminate C].
+      apply tx_ok_synack; try assumption; try reflexivity; try lia.
+      unfold flight in *. exact (proj1 Hd2). }
+  destruct (c_ack (h_ctl (s_hdr s))); cbn [negb].
+  2:{ apply Hrest; auto. intros _. split; assumption. }
+  destruct (mod_bounded (snd_nxt t) _ _ _ _).
+  { destruct (c_rst (h_ctl (s_hdr s))); intros H; inversion H; subst.
+    - split; assumption.
+    - apply Hreply; [apply rst_hdr_wf; assumption|reflexivity|reflexivity]. }
+  destruct (mod_bounded (snd_una t) _ _ _ _) eqn:Eb.
+  2:{ intros H; inversion H; subst. apply Hreply; [apply rst_hdr_wf; assumption|reflexivity|reflexivity]. }
+  destruct (c_syn (h_ctl (s_hdr s))) eqn:Esyn.
+  2:{ apply Hrest; auto. intros _. split; assumption. }
+  destruct (synsent_ack_arith _ _ _ (i_una _ HI) (i_nxt _ HI) Hack Hfl Eb) as (A1 & A2 & A3 & A4).
+  apply Hrest.
+  - apply advance_una; [assumption|assumption|]. left. unfold flight in *. auto.
+  - unfold remove_acked. tsimpl. exact Est.
+  - reflexivity.
+  - right. split; [reflexivity|]. unfold remove_acked. tsimpl. rewrite <- Eu. exact A4.
+  - discriminate.
+Qed.
+
+(* ---- every state ---- *)
+Lemma not_synsent_after a b : rfc_edge a b = true -> a <> SynSent -> b <> SynSent.
+Proof. destruct a, b; cbn; intros H Hn; congruence. Qed.
+
+Lemma process_segment_InvR t s t' r : InvR t -> wf_seg s ->
+  process_segment t s = Ok (t', r) -> should_delete r = false -> InvR t'.
+Proof.
+  intros HRS Hs H Hd.
+  destruct (state_eqb (st t) SynSent) eqn:Est.
+  { apply state_eqb_eq in Est. eapply process_segment_synsent_InvR; eassumption. }
+  assert (Hn : st t <> SynSent) by (intros C; rewrite C in Est; discriminate Est).
+  destruct HRS as [HR HS]. destruct Hs as [Hh Hl].
+  split.
+  2:{ intros C. exfalso. revert C. eapply not_synsent_after; [|exact Hn].
+      eapply process_segment_edge; eassumption. }
+  pose proof (ps_ack_RCore t (s_hdr s) HR Hh Hn) as H2.
+  pose proof (ps_ack_st t (s_hdr s)) as E2.
+  assert (Hn2 : st (fst (ps_ack t (s_hdr s))) <> SynSent).
+  { destruct (st t); try congruence; destruct (st (fst (ps_ack t (s_hdr s)))); discriminate. }
+  pose proof (ps_syn_RCore _ (s_hdr s) H2 Hh Hn2) as H4.
+  destruct (process_segment_cases _ _ _ _ H); subst; try assumption.
+  - apply enqueue_plain_RCore; [assumption|apply ack_hdr_wf, HR|reflexivity|reflexivity].
+  - apply ps_fin_RCore. eapply ps_text_RCore; eassumption.
+Qed.
+
+(* ---- the other operations ---- *)
+Lemma InvR_frame t t' : InvR t -> Inv t' ->
+  retx t' = retx t -> snd_una t' = snd_una t -> snd_nxt t' = snd_nxt t -> snd_iss t' = snd_iss t ->
+  st t' = st t -> fin_pending t' = fin_pending t -> InvR t'.
+Proof.
+  intros [HR HS] HI Er Eu En Ei Es Ef. split.
+  - eapply RCore_frame; try eassumption. rewrite Es. reflexivity.
+  - unfold RSyn, flight in *. rewrite Es, Eu, En, Ei. exact HS.
+Qed.
+
+Lemma tx_ok_map t (f : transmit -> transmit) l : (forall tx, t_seg (f tx) = t_seg tx) ->
+  Forall (tx_ok t) l -> Forall (tx_ok t) (map f l).
+Proof.
+  intros Hf H. induction H as [|tx l Htx _ IH]; cbn [map]; constructor; [|exact IH].
+  unfold tx_ok in *. rewrite Hf. exact Htx.
+Qed.
+
+Lemma InvR_retx_map t (f : transmit -> transmit) : (forall tx, t_seg (f tx) = t_seg tx) ->
+  InvR t -> InvR (set_retx t (map f (retx t))).
+Proof.
+  intros Hf [[H1 H2 H3 H4] HS]. split; [|exact HS].
+  constructor; try assumption.
+  - apply Inv_set_retx; [assumption|]. apply Forall_map_tx; [assumption|apply H1].
+  - tsimpl. apply (tx_ok_map t f _ Hf) in H2.
+    eapply Forall_impl; [|exact H2]. intros tx. unfold tx_ok, flight, data_bound, fin_unsent. tsimpl. auto.
+Qed.
+
+Lemma segment_arrives_InvR_loop fuel : forall t t', InvR t ->
+  arrives_loop fuel t = Ok (t', AOk) -> InvR t'.
+Proof.
+  induction fuel as [|f IH]; intros t t' HR; cbn [arrives_loop]; [discriminate|].
+  destruct (heap_peek (in_segs t)) as [top|]; [|intros H; inversion H; subst; exact HR].
+  destruct (_ && _); [intros H; inversion H; subst; exact HR|].
+  destruct (heap_pop (in_segs t)) as [[s rest]|] eqn:Epop; [|discriminate].
+  pose proof (proj1 HR) as HC. pose proof (r_inv _ HC) as HI.
+  destruct (heap_pop_some wf_seg _ _ _ Epop (i_insegs _ HI)) as (Hs & Hrest & _).
+  assert (H0 : InvR (set_in_segs t rest)).
+  { eapply InvR_frame; [exact HR|apply Inv_set_in_segs; assumption|..]; reflexivity. }
+  destruct (process_segment (set_in_segs t rest) s) as [[t1 r1]| | |] eqn:Ep; try discriminate.
+  destruct (should_delete r1) eqn:Ed; [discriminate|].
+  apply IH. eapply process_segment_InvR; eassumption.
+Qed.
+
+Lemma segment_arrives_InvR t s t' : InvR t -> wf_seg s ->
+  segment_arrives t s = Ok (t', AOk) -> InvR t'.
+Proof.
+  intros HR Hs. unfold segment_arrives. apply segment_arrives_InvR_loop.
+  pose proof (r_inv _ (proj1 HR)) as HI.
+  eapply InvR_frame; [exact HR| |..]; try reflexivity.
+  apply Inv_set_in_segs; [assumption|]. apply heap_push_Forall; [assumption|apply HI].
+Qed.
+
+Lemma tcb_send_InvR t b : InvR t -> InvR (tcb_send t b).
+Proof.
+  intros HR. unfold tcb_send. destruct (accepts_send _); [|assumption].
+  eapply InvR_frame; [exact HR|apply Inv_set_out_text, HR|..]; reflexivity.
+Qed.
+Lemma tcb_receive_InvR t : InvR t -> InvR (fst (tcb_receive t)).
+Proof.
+  intros HR. eapply InvR_frame; [exact HR|apply tcb_receive_inv, HR|..]; reflexivity.
+Qed.
+
+Lemma wadd1_flight una nxt : u32 una -> u32 nxt -> wsub nxt una <= H31 ->
+  wsub (wadd nxt 1) una = wsub nxt una + 1.
+Proof. u32_unfold. intros. lia. Qed.
+
+Lemma queue_pending_fin_InvR t : InvR t -> InvR (queue_pending_fin t).
+Proof.
+  intros HRS. pose proof (queue_pending_fin_inv t (r_inv _ (proj1 HRS))) as HI'.
+  pose proof HRS as HRS0.
+  destruct HRS as [[H1 H2 H3 H4] HS].
+  revert HI'. unfold queue_pending_fin.
+  destruct (fin_pending t) eqn:Efp; cbn [andb]; [|intros _; exact HRS0].
+  destruct (out_text t); [|intros _; exact HRS0].
+  specialize (H4 eq_refl). intros HI'.
+  unfold enqueue in *. tsimpl.
+  assert (Efl : wsub (wadd (snd_nxt t) 1) (snd_una t) = flight t + 1).
+  { unfold flight, fin_unsent in *. rewrite Efp, orb_true_r in H3.
+    apply wadd1_flight; [apply H1|apply H1|lia]. }
+  split.
+  - constructor; [assumption| | |]; unfold flight, fin_unsent, data_bound in *; tsimpl.
+    + apply Forall_app. split.
+      * eapply Forall_impl; [|exact H2]. intros tx.
+        unfold tx_ok, flight, data_bound, fin_unsent. tsimpl.
+        rewrite Efl, Efp, H4, orb_true_r. cbn [orb]. intros [A B]. split; [lia|].
+        intros C. specialize (B C). lia.
+      * constructor; [|constructor]. unfold tx_ok, flight, data_bound, fin_unsent, seg_len. tsimpl.
+        unfold zlen. cbn [length b2z].
+        match goal with |- context [wadd (snd_nxt t) ?x] => replace x with 1 by reflexivity end.
+        rewrite Efl. split.
+        -- pose proof (wsub_u32 (snd_nxt t) (snd_una t)) as Hu. unfold u32 in Hu. lia.
+        -- intros C. exfalso. apply C. reflexivity.
+    + rewrite Efl, H4. cbn [orb]. rewrite Efp, orb_true_r in H3. lia.
+    + discriminate.
+  - unfold RSyn. tsimpl. intros C. rewrite C in H4. discriminate H4.
+Qed.
+
+Lemma tcb_close_InvR t : InvR t -> InvR (fst (tcb_close t)).
+Proof.
+  intros HRS. unfold tcb_close.
+  assert (Hgo : forall v, pre_fin (st t) = true -> st t <> SynSent -> pre_fin v = false -> v <> SynSent ->
+                InvR (queue_pending_fin (set_st (set_fin_pending t true) v))).
+  { intros v Hp Hn Hv Hv'. apply queue_pending_fin_InvR.
+    destruct HRS as [[H1 H2 H3 H4] HS]. split.
+    - constructor; unfold flight, fin_unsent, data_bound in *; tsimpl.
+      + apply Inv_set_st, Inv_set_fin_pending, H1.
+      + eapply Forall_impl; [|exact H2]. intros tx.
+        unfold tx_ok, flight, data_bound, fin_unsent. tsimpl. rewrite Hp, orb_true_r. auto.
+      + rewrite orb_true_r. rewrite Hp in H3. exact H3.
+      + intros _. exact Hv.
+    - unfold RSyn. tsimpl. congruence. }
+  destruct (st t) eqn:Est; cbn [fst]; try assumption;
+    apply Hgo; try reflexivity; congruence.
+Qed.
+
+Lemma advance_time_InvR t dt : InvR t -> 0 <= dt -> InvR (fst (advance_time t dt)).
+Proof.
+  intros HR Hdt. pose proof (advance_time_inv t dt (r_inv _ (proj1 HR)) Hdt) as HI.
+  revert HI. unfold advance_time.
+  set (t1 := if rto t <? dt then _ else _).
+  assert (H1 : InvR t1).
+  { subst t1. destruct (rto t <? dt) eqn:Erto.
+    - apply (InvR_retx_map (set_rto t RTO) (fun tx => mkTx (t_seg tx) true)); [reflexivity|].
+      eapply InvR_frame; [exact HR|apply Inv_set_rto; [apply HR|apply rto_ok_RTO]|..]; reflexivity.
+    - eapply InvR_frame; [exact HR| |..]; try reflexivity.
+      apply Inv_set_rto; [apply HR|]. pose proof (i_rto _ (r_inv _ (proj1 HR))). lia. }
+  destruct (time_wait t1) as [tw|]; [|intros _; exact H1].
+  destruct (tw <? dt); cbn [fst]; [intros _; exact H1|].
+  intros HI. eapply InvR_frame; [exact H1|exact HI|..]; reflexivity.
+Qed.
+
+Lemma seg_loop_InvR fuel : forall t mss t', InvR t -> 0 <= mss <= 65535 - SPACE_FOR_HEADERS ->
+  seg_loop fuel t mss (zlen (out_text t)) = Ok t' -> InvR t'.
+Proof.
+  induction fuel as [|f IH]; intros t mss t' HRS Hmss; cbn [seg_loop]; [discriminate|].
+  set (bytes := Z.min (Z.min mss _) _).
+  pose proof (zlen_nonneg (out_text t)) as Hz.
+  destruct (bytes =? 0) eqn:E0; [intros H; inversion H; subst; exact HRS|].
+  destruct (65535 <? bytes + 20) eqn:E1; [discriminate|].
+  assert (Hb : 0 < bytes <= mss /\ bytes <= zlen (out_text t) /\
+               bytes <= snd_wnd t - flight t) by (unfold flight; subst bytes; lia).
+  match goal with |- seg_loop f ?t3 mss ?rem = _ -> _ =>
+    assert (Erem : rem = zlen (out_text t3)) by (tsimpl; rewrite zlen_skipn by lia; reflexivity);
+    assert (H3 : InvR t3); [|rewrite Erem; apply IH; assumption] end.
+  destruct HRS as [[H1 H2 H3 H4] HS].
+  assert (Hlen : zlen (firstn (Z.to_nat bytes) (out_text t)) = bytes).
+  { unfold zlen in *. rewrite firstn_length. lia. }
+  assert (Hwnd : snd_wnd t <= 65535) by (apply H1).
+  assert (Efl : wsub (wadd (snd_nxt t) bytes) (snd_una t) = flight t + bytes).
+  { pose proof (wsub_u32 (snd_nxt t) (snd_una t)) as Hu. unfold flight in *.
+    clearbody bytes. revert Hu Hb. u32_unfold. intros Hu Hb. lia. }
+  pose proof (wsub_u32 (snd_nxt t) (snd_una t)) as Hfu. fold (flight t) in Hfu. unfold u32 in Hfu.
+  assert (HI3 : Inv (set_retx (set_snd_nxt (set_out_text t (skipn (Z.to_nat bytes) (out_text t)))
+                                 (wadd (snd_nxt t) bytes))
+                     (retx t ++ [mkTx (mkSeg (hb_wnd (hb_ack (hb t (snd_nxt t)) (rcv_nxt t)) (rcv_wnd t))
+                                             (firstn (Z.to_nat bytes) (out_text t))) true]))).
+  { apply Inv_set_retx.
+    + apply Inv_set_snd_nxt; [apply Inv_set_out_text; assumption|apply wadd_u32].
+    + tsimpl. apply Forall_app. split; [apply H1|]. constructor; [|constructor]. tsimpl.
+      split; tsimpl.
+      * apply hb_wnd_wf; [|apply rcv_wnd_u16; assumption].
+        apply hb_ack_wf; [|apply H1]. apply hb_wf; [assumption|apply H1].
+      * rewrite Hlen. unfold MAXTEXT, SPACE_FOR_HEADERS in *. lia. }
+  split.
+  - constructor; [exact HI3| | |]; unfold flight, fin_unsent, data_bound in *; tsimpl.
+    + apply Forall_app. split.
+      * eapply Forall_impl; [|exact H2]. intros tx.
+        unfold tx_ok, flight, data_bound, fin_unsent. tsimpl. rewrite Efl.
+        intros [A B]. split; [lia|]. intros _. destruct (pre_fin (st t) || fin_pending t); lia.
+      * constructor; [|constructor]. unfold tx_ok, flight, data_bound, fin_unsent, seg_len. tsimpl.
+        rewrite Hlen, Efl. cbn [b2z]. replace (bytes + 0 + 0) with bytes by lia. rewrite Efl.
+        split; [lia|]. intros _. destruct (pre_fin (st t) || fin_pending t); lia.
+    + rewrite Efl. unfold H31. destruct (pre_fin (st t) || fin_pending t); lia.
+    + assumption.
+  - unfold RSyn, flight in *. tsimpl. rewrite Efl. intros C. destruct (HS C) as [A B]. split; [exact A|lia].
+Qed.
+
+Lemma tcb_segments_InvR t t' segs : InvR t -> tcb_segments t = Ok (t', segs) -> InvR t'.
+Proof.
+  intros HR H.
+  destruct (tcb_segments_ok t (r_inv _ (proj1 HR))) as (t'' & segs' & H' & HI' & _).
+  rewrite H in H'. inversion H'; subst t'' segs'. clear H'.
+  revert H. unfold tcb_segments.
+  assert (H0 : InvR (set_oneshot t [])).
+  { eapply InvR_frame; [exact HR|apply Inv_set_oneshot; [apply HR|constructor]|..]; reflexivity. }
+  match goal with |- context [match ?r with Ok _ => _ | _ => _ end] => destruct r as [t1| | |] eqn:E1 end;
+    try discriminate.
+  assert (H1 : InvR t1).
+  { revert E1. destruct (segmentizes _); [|intros H; inversion H; subst; exact H0].
+    pose proof (i_mtu _ (r_inv _ (proj1 H0))) as Hm.
+    destruct (mtu (set_oneshot t []) <? SPACE_FOR_HEADERS); [discriminate|].
+    destruct (seg_loop _ _ _ _) as [t0| | |] eqn:El; try discriminate.
+    intros H; inversion H; subst. apply queue_pending_fin_InvR.
+    eapply seg_loop_InvR; [exact H0| |exact El]. lia. }
+  intros H; inversion H; subst; clear H.
+  assert (H2 : InvR (set_retx t1 (map (fun tx => mkTx (t_seg tx) false) (retx t1))))
+    by (apply InvR_retx_map; [reflexivity|assumption]).
+  eapply InvR_frame; [exact H2|exact HI'|..]; destruct (_ ++ _); reflexivity.
+Qed.
+
+Lemma tcb_open_InvR lp rp iss mtu0 : u16 lp -> u16 rp -> u32 iss ->
+  SPACE_FOR_HEADERS <= mtu0 <= 65535 -> InvR (tcb_open lp rp iss mtu0).
+Proof.
+  intros Hl Hr Hi Hm. pose proof (tcb_open_inv lp rp iss mtu0 Hl Hr Hi Hm) as HI.
+  revert HI. unfold tcb_open. cbv zeta. unfold enqueue. tsimpl. intros HI.
+  assert (E : wsub (wadd iss 1) iss = 1) by (revert Hi; u32_unfold; intros; lia).
+  split.
+  - constructor; [exact HI| | |]; unfold flight, fin_unsent, data_bound; tsimpl.
+    + constructor; [|constructor]. unfold tx_ok, flight, seg_len. tsimpl. unfold zlen. cbn [length b2z].
+      match goal with |- context [wadd iss ?x] => replace x with 1 by reflexivity end.
+      rewrite E. split; [lia|].
+      intros C. exfalso. apply C. reflexivity.
+    + rewrite E. unfold H31. cbn. lia.
+    + discriminate.
+  - unfold RSyn, flight. tsimpl. rewrite E. intros _. split; [reflexivity|lia].
+Qed.
+
+Lemma arrives_listen_InvR s iss mtu0 t : wf_seg s -> u32 iss ->
+  SPACE_FOR_HEADERS <= mtu0 <= 65535 -> arrives_listen s iss mtu0 = LTcb t -> InvR t.
+Proof.
+  intros Hs Hi Hm H. pose proof (arrives_listen_inv s iss mtu0 t Hs Hi Hm H) as HI.
+  revert H HI. unfold arrives_listen. repeat break_if; try discriminate.
+  intros H; inversion H; subst; clear H. unfold enqueue. tsimpl. intros HI.
+  assert (E : wsub (wadd iss 1) iss = 1) by (revert Hi; u32_unfold; intros; lia).
+  split.
+  - constructor; [exact HI| | |]; unfold flight, fin_unsent, data_bound; tsimpl.
+    + constructor; [|constructor]. unfold tx_ok, flight, seg_len. tsimpl. unfold zlen. cbn [length b2z].
+      match goal with |- context [wadd iss ?x] => replace x with 1 by reflexivity end.
+      rewrite E. split; [lia|].
+      intros C. exfalso. apply C. reflexivity.
+    + rewrite E. unfold H31. cbn. lia.
+    + discriminate.
+  - unfold RSyn. tsimpl. discriminate.
+Qed.
+
+Definition InvR_opt (o : option tcb) : Prop := match o with Some t => InvR t | None => True end.
+
+Lemma apply_op_InvR t o : InvR t -> wf_op o -> exists r, apply_op t o = Ok r /\ InvR_opt r.
+Proof.
+  intros HR Ho. pose proof (r_inv _ (proj1 HR)) as HI.
+  destruct o; cbn [apply_op wf_op] in *.
+  - destruct (segment_arrives_ok t s HI Ho) as (t' & r & E & H').
+    pose proof (segment_arrives_InvR t s t' HR Ho) as HR'. rewrite E in *.
+    destruct r; eexists; split; eauto; [exact (HR' eq_refl)|exact I].
+  - eexists; split; [reflexivity|]. apply tcb_send_InvR; assumption.
+  - eexists; split; [reflexivity|]. apply tcb_receive_InvR; assumption.
+  - eexists; split; [reflexivity|]. apply tcb_close_InvR; assumption.
+  - pose proof (advance_time_InvR t dt HR Ho) as H'.
+    destruct (advance_time t dt) as [t' []]; eexists; split; eauto; exact I.
+  - destruct (tcb_segments_ok t HI) as (t' & segs & E & H' & _).
+    pose proof (tcb_segments_InvR t t' segs HR E). rewrite E. eexists; split; eauto.
+Qed.
+
+Lemma run_ops_InvR ops : forall t, InvR t -> Forall wf_op ops ->
+  exists r, run_ops t ops = Ok r /\ InvR_opt r.
+Proof.
+  induction ops as [|o rest IH]; intros t HR Hops; cbn [run_ops].
+  - eexists; split; [reflexivity|exact HR].
+  - inversion Hops; subst.
+    destruct (apply_op_InvR t o HR) as (r & -> & Hr); [assumption|].
+    destruct r as [t'|]; [apply IH; assumption|].
+    eexists; split; [reflexivity|exact I].
+Qed.
+
+(* ---- InvR gives old_behind, hence the window bound in its seq form ---- *)
+Lemma old_behind_arith una nxt seq len : u32 una -> u32 nxt -> u32 seq -> 1 <= len <= 65536 + 2 ->
+  0 < wsub (wadd seq len) una <= wsub nxt una -> wsub nxt una <= 65536 ->
+  mod_geq seq nxt = false.
+Proof. unfold mod_geq. u32_unfold. intros Hu Hn Hs Hl He Hd. lia. Qed.
+
+Lemma InvR_old_behind t : InvR t -> old_behind t.
+Proof.
+  intros [[H1 H2 H3 H4] _]. unfold old_behind.
+  pose proof (i_retx _ H1) as Hwf. revert Hwf H2. generalize (retx t) as l.
+  induction l as [|tx l IH]; intros Hwf H2; constructor.
+  - inversion Hwf as [|? ? [Hh Hl] _]; subst. inversion H2 as [|? ? [A B] _]; subst.
+    intros Ht. specialize (B Ht).
+    pose proof (zlen_nonneg (s_text (t_seg tx))) as Hz.
+    assert (Hz1 : 1 <= zlen (s_text (t_seg tx))).
+    { destruct (s_text (t_seg tx)); [congruence|]. unfold zlen. cbn [length]. lia. }
+    eapply (old_behind_arith (snd_una t) (snd_nxt t) _ (seg_len (t_seg tx)));
+      try apply H1; try apply Hh; try exact A.
+    + unfold seg_len, MAXTEXT in *.
+      destruct (c_syn _), (c_fin _); cbn [b2z]; lia.
+    + unfold flight, data_bound in B. destruct (fin_unsent t); lia.
+  - inversion Hwf; subst. inversion H2; subst. apply IH; assumption.
+Qed.
+
+Lemma tcb_segments_window_InvR t t' segs : InvR t -> tcb_segments t = Ok (t', segs) ->
+  forall s, In s segs -> s_text s <> [] -> mod_geq (h_seq (s_hdr s)) (snd_nxt t) = true ->
+    within_snd_window (snd_una t') (snd_wnd t') s.
+Proof.
+  intros HR. apply tcb_segments_window_seq.
+  - pose proof (i_swnd _ (r_inv _ (proj1 HR))) as Hw. unfold u16, u32, M32 in *. lia.
+  - apply InvR_old_behind. exact HR.
+Qed.
+
+(* ---- finding: an ACK exactly 2^31 ahead of SND.UNA = SND.NXT is taken as a
+   valid acknowledgment (mod_leq and mod_gt are both false at the antipode):
+   SND.UNA jumps 2^31 past SND.NXT and nothing can be sent until the next
+   legitimate ACK pulls it back.  No crash, the window bound still holds. ---- *)
+Definition idle_tcb : tcb :=
+  mkTcb 1000 80 1500 false Established 101 101 65535 500 101 100 500 501 DEFAULT_WND
+        [] [] [] false [] [] RTO None.
+Definition antipode_ack : segment :=
+  mkSeg (mkHdr 80 1000 501 (101 + H31) (mkCtl false true false false false false) 65535 0) [].
+Lemma ack_antipode :
+  InvR idle_tcb /\ wf_seg antipode_ack /\
+  match segment_arrives idle_tcb antipode_ack with
+  | Ok (t', AOk) => snd_una t' = 101 + H31 /\ snd_nxt t' = 101 /\ flight t' = H31
+  | _ => False
+  end.
+Proof.
+  split.
+  { split.
+    - constructor.
+      + constructor; cbn; unfold u16, u32, M32, SPACE_FOR_HEADERS, DEFAULT_WND, RTO, tw_ok, zlen; cbn;
+          try lia; constructor.
+      + constructor.
+      + vm_compute. discriminate.
+      + cbn. discriminate.
+    - unfold RSyn. cbn. discriminate. }
+  split. { repeat split; cbn; unfold u16, u32, M32, H31, MAXTEXT, zlen; cbn; lia. }
+  vm_compute. repeat split.
+Qed.
+
+(* ------------------------------------------------------------------ *)
+(* deletion through segment_arrives with a non-empty heap: the closing result
+   comes from ONE process_segment call on the new segment or a queued one *)
+Lemma arrives_loop_close fuel : forall t t',
+  arrives_loop fuel t = Ok (t', AClose) ->
+  exists t0 s0 r, In s0 (in_segs t) /\ rfc_path (st t) (st t0) /\
+    process_segment t0 s0 = Ok (t', r) /\ should_delete r = true.
+Proof.
+  induction fuel as [|f IH]; intros t t'; cbn [arrives_loop]; [discriminate|].
+  destruct (heap_peek (in_segs t)) as [top|]; [|discriminate].
+  destruct (_ && _); [discriminate|].
+  destruct (heap_pop (in_segs t)) as [[s rest]|] eqn:Epop; [|discriminate].
+  assert (Hall : Forall (fun x => In x (in_segs t)) (in_segs t)) by (apply Forall_forall; auto).
+  destruct (heap_pop_some (fun x => In x (in_segs t)) _ _ _ Epop Hall) as (Hs & Hrest & _).
+  destruct (process_segment (set_in_segs t rest) s) as [[t1 r1]| | |] eqn:Ep; try discriminate.
+  destruct (should_delete r1) eqn:Ed.
+  - intros H; inversion H; subst.
+    exists (set_in_segs t rest), s, r1. repeat split; auto. apply rt_refl.
+  - intros H. apply IH in H. destruct H as (t0 & s0 & r & Hin & Hpath & Hp & Hd).
+    exists t0, s0, r. repeat split; auto.
+    + rewrite (process_segment_in_segs _ _ _ _ Ep) in Hin. tsimpl.
+      rewrite Forall_forall in Hrest. auto.
+    + eapply rt_trans; [|exact Hpath]. apply rt_step.
+      apply process_segment_edge in Ep. exact Ep.
+Qed.
+
+Lemma heap_push_In (v : list segment) x y : In y (heap_push v x) -> y = x \/ In y v.
+Proof.
+  intros H.
+  assert (F : Forall (fun z => z = x \/ In z v) (heap_push v x)).
+  { apply heap_push_Forall; [left; reflexivity|]. apply Forall_forall. auto. }
+  rewrite Forall_forall in F. auto.
+Qed.
+
+Lemma segment_arrives_close t s t' : segment_arrives t s = Ok (t', AClose) ->
+  exists t0 s0 r, (s0 = s \/ In s0 (in_segs t)) /\ rfc_path (st t) (st t0) /\
+    process_segment t0 s0 = Ok (t', r) /\ should_delete r = true /\
+    ((c_rst (h_ctl (s_hdr s0)) = true /\ ps_rst t' (s_hdr s0) = Some r) \/
+     (r = PFinalizeClose /\ c_ack (h_ctl (s_hdr s0)) = true /\ st t0 = LastAck /\ st t' = LastAck /\
+      is_fin_acked t' = true)).
+Proof.
+  unfold segment_arrives. intros H. apply arrives_loop_close in H.
+  destruct H as (t0 & s0 & r & Hin & Hpath & Hp & Hd). tsimpl.
+  exists t0, s0, r. repeat split; auto.
+  - apply heap_push_In. exact Hin.
+  - eapply process_segment_deleted; eassumption.
 Qed.
